@@ -15,7 +15,9 @@ invert   v4 data sets whose stored visibilities were corrupted by known complex 
          bandpasses, same solutions at every dump: corrected vis within REL_TOL of the clean ones (the one clause of
          the property that says "to within single-precision rounding").
 """
+import logging
 import math
+import warnings
 from fractions import Fraction
 
 import numpy as np
@@ -36,6 +38,9 @@ ASSUMPTIONS = ['correction values are finite or NaN (infinite corrections are ou
                'the solutions-to-corrections interpolation (C14) is taken as given: in the v4 stream the correction '
                'sensors are read back from the data set',
                'invert stream tolerance: |corrected - clean| <= 2^-18 * max(|clean|, 1) per component']
+
+warnings.simplefilter('ignore')
+logging.disable(logging.CRITICAL)
 
 REL_TOL = 2.0 ** -18
 TYPES = ['K', 'B', 'G', 'GPHASE', 'GAMP_PHASE']
@@ -447,8 +452,270 @@ def cfg_key(cfg):
 
 
 # --------------------------------------------------------------------------- v4 route
+def _pow2(e):
+    return [2.0 ** e, 0.0]
+
+
+def gen_v4(rng, tier='quick'):
+    """Exact stream: real positive power-of-two solutions (constant in time per input, NaN events / inputs /
+    band edges), so every derived correction is an exact power of two, 1 or NaN."""
+    n_ant = rng.randint(2, 3)
+    ants = ['m%03d' % a for a in range(n_ant)]
+    T, F = rng.randint(3, 7), rng.randint(3, 8)
+    chan_w = 1048576.0
+    cf = 1284e6
+    mode = rng.choice(['same', 'shifted', 'other'])
+    n_cal = F if mode != 'other' else rng.choice([k for k in range(2, F + 3) if k != F])
+    shift = 0 if mode == 'same' else rng.choice([-2, -1, 1, 2])
+    cal_bw = F * chan_w if mode != 'other' else F * chan_w * rng.choice([1, 1, 2])
+    antlist = list(ants)
+    rng.shuffle(antlist)
+    pols = rng.choice([['v', 'h'], ['h', 'v']])
+    types = rng.sample(['G', 'B', 'K'], rng.randint(1, 3))
+    products = {}
+    nan_input = (rng.randrange(2), rng.randrange(n_ant)) if rng.random() < 0.4 else None
+    for t in types:
+        exps = [[rng.randint(-3, 3) for _ in range(n_ant)] for _ in range(2)]
+        cexp = [rng.randint(-1, 1) for _ in range(n_cal)]      # constant in time: interpolation stays exact
+        g_with_chans = rng.random() < 0.4
+        events = []
+        for dump in sorted(rng.sample(range(-1, T), rng.randint(1, min(3, T + 1)))):
+            if t == 'K':
+                arr = [[(None if rng.random() < 0.2 else 0.0) for _ in range(n_ant)] for _ in range(2)]
+            elif t == 'G' and not g_with_chans:
+                arr = [[None if ((p, a) == nan_input or rng.random() < 0.1) else _pow2(exps[p][a])
+                        for a in range(n_ant)] for p in range(2)]
+            else:
+                # B (and G with a channel axis): constant per input, NaN at band edges or whole inputs
+                lo, hi = rng.randint(0, 1), n_cal - rng.randint(0, 1)
+                if t == 'G':
+                    arr = [[[None if (p, a) == nan_input else _pow2(exps[p][a] + cexp[k])
+                             for a in range(n_ant)] for p in range(2)] for k in range(n_cal)]
+                else:
+                    arr = [[[None if ((p, a) == nan_input or not lo <= k < hi) else _pow2(exps[p][a])
+                             for a in range(n_ant)] for p in range(2)] for k in range(n_cal)]
+            events.append([dump, arr])
+        products[t] = events
+    cal = dict(antlist=antlist, pol_ordering=pols, center_freq=cf + shift * chan_w, bandwidth=cal_bw, n_chans=n_cal,
+               products=products)
+    applycal = ['l1.' + t for t in types]
+    rng.shuffle(applycal)
+    sel = {}
+    if rng.random() < 0.7:
+        a = rng.randrange(T)
+        sel['dumps'] = [a, rng.randint(a + 1, T)]
+    if rng.random() < 0.7:
+        a = rng.randrange(F)
+        sel['channels'] = [a, rng.randint(a + 1, F)]
+    r = rng.random()
+    if r < 0.3:
+        sel['ants'] = rng.sample(ants, rng.randint(1, n_ant))
+    elif r < 0.5:
+        sel['pol'] = rng.choice(['hh', 'vv', 'hv', 'vh', 'h', 'v'])
+    elif r < 0.6:
+        sel['corrprods'] = rng.choice(['auto', 'cross'])
+    return dict(route='v4', T=T, F=F, ants=ants, chan_w=chan_w, cf=cf, cal=cal, applycal=applycal, select=sel,
+                seed=rng.randrange(10 ** 6), shuffle_bls=rng.random() < 0.5,
+                chunks=[compositions(rng, T), compositions(rng, F)],
+                index=[rng.choice([None, 1, 2]), rng.choice([None, 1, 2])])
+
+
+def c13cal_shape(a):
+    from fixtures import c13cal
+    return c13cal._shape(a, 2)
+
+
+def gen_invert(rng, tier='quick'):
+    n_ant = rng.randint(2, 3)
+    ants = ['m%03d' % a for a in range(n_ant)]
+    T, F = rng.randint(2, 4), rng.randint(3, 8)
+    chan_w = 1048576.0
+    antlist = list(ants)
+    rng.shuffle(antlist)
+    pols = rng.choice([['v', 'h'], ['h', 'v']])
+    types = rng.sample(['G', 'B', 'K'], rng.randint(1, 3))
+
+    def cval():
+        m, ph = rng.uniform(0.5, 2.0), rng.uniform(-math.pi, math.pi)
+        return [m * math.cos(ph), m * math.sin(ph)]
+    products = {}
+    for t in types:
+        if t == 'K':
+            arr = [[rng.uniform(-2e-9, 2e-9) for _ in range(n_ant)] for _ in range(2)]
+        elif t == 'G':
+            arr = [[cval() for _ in range(n_ant)] for _ in range(2)]
+        else:
+            arr = [[[cval() for _ in range(n_ant)] for _ in range(2)] for _ in range(F)]
+        products[t] = [[d, arr] for d in sorted(rng.sample(range(-1, T), rng.randint(1, 2)))]
+    cal = dict(antlist=antlist, pol_ordering=pols, center_freq=1284e6, bandwidth=F * chan_w, n_chans=F,
+               products=products)
+    applycal = ['l1.' + t for t in types]
+    rng.shuffle(applycal)
+    return dict(route='invert', T=T, F=F, ants=ants, chan_w=chan_w, cf=1284e6, cal=cal, applycal=applycal,
+                seed=rng.randrange(10 ** 6), shuffle_bls=rng.random() < 0.5,
+                chunks=[compositions(rng, T), compositions(rng, F)])
+
+
+def _build(vcfg, arrays=None):
+    from fixtures import c13cal, v4
+    T, F, ants = vcfg['T'], vcfg['F'], vcfg['ants']
+    bls = v4.bls_ordering_for(ants)
+    if vcfg.get('shuffle_bls'):
+        import random
+        random.Random(vcfg['seed']).shuffle(bls)
+    ch = (tuple(vcfg['chunks'][0]), tuple(vcfg['chunks'][1]), (len(bls),))
+    x = v4.build_v4(T=T, F=F, ants=ants, seed=vcfg['seed'], bandwidth=F * vcfg['chan_w'], center_freq=vcfg['cf'],
+                    bls_ordering=bls, arrays=arrays, chunks={'correlator_data': ch},
+                    telstate_hook=c13cal.cal_hook(vcfg['cal']), archived_override=['sdp_l0', 'cal'],
+                    open_kwargs=dict(applycal=list(vcfg['applycal'])), tmp=v4.scratch_dir('c13'))
+    return x, bls
+
+
+def _read_corrections(d, ptype, inputs, T):
+    out = []
+    for inp in inputs:
+        s = d.sensor.get('Calibration/Corrections/l1/%s/%s' % (ptype, inp))
+        out.append([np.atleast_1d(np.asarray(s[t])).astype(np.complex64) for t in range(T)])
+    return out
+
+
 def run_v4(ctx, vcfg):
-    raise NotImplementedError
+    from fixtures import c13cal, v4
+    if vcfg['route'] == 'invert':
+        return run_invert(ctx, vcfg)
+    x = None
+    try:
+        try:
+            x, bls = _build(vcfg)
+            d = x.d
+            raw = v4.reopen(x)
+            T, F = vcfg['T'], vcfg['F']
+            inputs = sorted({i for cp in bls for i in cp})
+            prods = []
+            for name in d.applycal_products:
+                ptype = name.split('.')[1]
+                corr = _read_corrections(d, ptype, inputs, T)
+                cn = max(len(g) for per in corr for g in per)
+                prods.append(dict(name=name, stream='l1', kb=int(ptype in 'KB'),
+                                  own=1 if ptype in 'KB' else (0 if cn == 1 else 2), form='v4',
+                                  cal_freqs=[q_wire(f) for f in c13cal.cal_channel_freqs(vcfg['cal'])],
+                                  corr=[[[complex_to_wire(z) or None for z in g] for g in per] for per in corr]))
+            if list(d.applycal_products) != list(vcfg['applycal']):
+                ctx.disagree('route=v4;symptom=products_dropped', vcfg, list(d.applycal_products), vcfg['applycal'],
+                             'applycal products differ from the requested ones')
+            vis0, w0, f0 = raw.vis[:], raw.weights[:], raw.raw_flags[:]
+            cfg = dict(route='direct', T=T, labels=inputs, cps=[[inputs.index(a), inputs.index(b)] for a, b in bls],
+                       data_freqs=[q_wire(float(f)) for f in raw.channel_freqs], prods=prods,
+                       chunks=[vcfg['chunks'][0], vcfg['chunks'][1], [len(bls)]],
+                       vis=[[[complex_to_wire(z) or None for z in r] for r in t] for t in vis0],
+                       weights=[[[list(float_to_dy(w)) for w in r] for r in t] for t in w0],
+                       flags=f0.astype(int).tolist())
+            sel = dict(vcfg.get('select', {}))
+            kw = {}
+            if 'dumps' in sel:
+                kw['dumps'] = slice(*sel['dumps'])
+            if 'channels' in sel:
+                kw['channels'] = slice(*sel['channels'])
+            for k in ('ants', 'pol', 'corrprods'):
+                if k in sel:
+                    kw[k] = sel[k]
+            d.select(**kw)
+            ix = np.ix_(d.dumps, d.channels, np.nonzero(d._corrprod_keep)[0])
+            s1, s2 = [slice(None) if s is None else slice(None, None, s) for s in vcfg.get('index', [None, None])]
+            impl = dict(vis=d.vis[s1, s2], weights=d.weights[s1, s2], flags=d.raw_flags[s1, s2])
+            boolflags = d.flags[s1, s2]
+        except Exception as e:
+            ctx.disagree('route=v4;symptom=raises;exc=%s' % type(e).__name__, vcfg, repr(e)[:300], 'a result',
+                         'opening / reading a data set with applycal raised')
+            return
+        mo = ctx.model([model_case(cfg)])[0] if ctx.model_ok else None
+        m = model_arrays(cfg, mo) if mo is not None else fallback_arrays(cfg)
+        msel = dict(m)
+        for k in ('vis', 'weights', 'flags', 'spec_vis', 'spec_weights', 'spec_flags', 'vis_exact', 'w_exact', 'corr'):
+            msel[k] = m[k][ix][s1, s2]
+        report = dict(vcfg, derived=dict(maps=m.get('maps'), products=[p['name'] for p in prods]))
+        compare(ctx, report if False else cfg_with(vcfg, cfg), impl, msel, 'v4')
+        if not np.array_equal(boolflags, impl['flags'] != 0):
+            ctx.disagree('route=v4;obs=boolflags', vcfg, None, None, 'flags differ from raw_flags != 0')
+        ctx.traces_validated += 1
+        ctx.note_case(cfg_key(vcfg), nontrivial=nontrivial(cfg, m),
+                      sample=dict(route='v4', applycal=vcfg['applycal'], select=vcfg.get('select'), maps=m.get('maps'),
+                                  cal_n_chans=vcfg['cal']['n_chans'], F=F, nan_factors=int(np.isnan(m['corr']).sum())))
+        ctx.count('route=v4')
+        for k in m.get('maps', []):
+            ctx.count('v4map=%s' % {0: 'broadcast', 1: 'direct', 2: 'nearest'}[k])
+        ctx.count('v4_nan_factor=%s' % bool(np.isnan(m['corr']).any()))
+    finally:
+        if x is not None:
+            v4.cleanup(x)
+
+
+class cfg_with(dict):
+    """the replayable case is the v4 configuration; feature extraction needs the derived direct configuration."""
+    def __init__(self, vcfg, cfg):
+        super().__init__(vcfg)
+        self._cfg = cfg
+
+    def __getitem__(self, k):
+        return self._cfg[k] if k == 'prods' else super().__getitem__(k)
+
+
+def run_invert(ctx, vcfg):
+    from fixtures import c13cal, v4
+    T, F, ants = vcfg['T'], vcfg['F'], vcfg['ants']
+    bls = v4.bls_ordering_for(ants)
+    if vcfg.get('shuffle_bls'):
+        import random
+        random.Random(vcfg['seed']).shuffle(bls)
+    B = len(bls)
+    rs = np.random.RandomState(vcfg['seed'])
+    clean = (rs.randint(-64, 64, size=(T, F, B)) + 1j * rs.randint(-64, 64, size=(T, F, B))).astype(np.complex128)
+    cal = vcfg['cal']
+    freqs = c13cal.cal_channel_freqs(cal)          # same channelisation as the data in this stream
+    gain = {}
+    for a_i, ant in enumerate(cal['antlist']):
+        for p_i, pol in enumerate(cal['pol_ordering']):
+            g = np.ones(F, np.complex128)
+            for t, events in cal['products'].items():
+                arr = events[0][1]
+                if t == 'K':
+                    g = g * np.exp(2j * np.pi * arr[p_i][a_i] * freqs)
+                elif t == 'G':
+                    g = g * complex(*arr[p_i][a_i])
+                else:
+                    g = g * np.array([complex(*arr[k][p_i][a_i]) for k in range(F)])
+            gain[ant + pol] = g
+    corrupt = clean.copy()
+    for b, (i1, i2) in enumerate(bls):
+        corrupt[:, :, b] *= (gain[i1] * np.conj(gain[i2]))[np.newaxis, :]
+    x = None
+    try:
+        try:
+            x, _ = _build(vcfg, arrays={'correlator_data': corrupt.astype(np.complex64)})
+            got = x.d.vis[:].astype(np.complex128)
+            prods_ok = list(x.d.applycal_products) == list(vcfg['applycal'])
+        except Exception as e:
+            ctx.disagree('route=invert;symptom=raises;exc=%s' % type(e).__name__, vcfg, repr(e)[:300], 'a result',
+                         'opening / reading a data set with applycal raised')
+            return
+        tol = REL_TOL * np.maximum(np.abs(clean), 1.0) * (1 + len(vcfg['applycal']))
+        err = np.maximum(np.abs(got.real - clean.real), np.abs(got.imag - clean.imag))
+        bad = ~(err <= tol)
+        if bad.any() or not prods_ok:
+            at = tuple(int(v) for v in np.argwhere(bad)[0]) if bad.any() else None
+            ctx.disagree('route=invert;symptom=not_restored', vcfg,
+                         dict(at=at, value=str(got[at]) if at else None, products=list(x.d.applycal_products)),
+                         dict(at=at, value=str(clean[at]) if at else None),
+                         'data corrupted by known gains are not restored within %g relative' % REL_TOL)
+        ctx.traces_validated += 1
+        ctx.note_case(cfg_key(vcfg), nontrivial=True,
+                      sample=dict(route='invert', applycal=vcfg['applycal'], max_rel_err=float((err / np.maximum(np.abs(clean), 1)).max())))
+        ctx.count('route=invert')
+        ctx.extra['invert_max_rel_err'] = max(ctx.extra.get('invert_max_rel_err', 0.0),
+                                              float((err / np.maximum(np.abs(clean), 1)).max()))
+    finally:
+        if x is not None:
+            v4.cleanup(x)
 
 
 def run_case(ctx, cfg):
@@ -475,7 +742,10 @@ def run(ctx):
             ctx.disagree('route=direct;symptom=model_rejects_case', cfg, None, mo, 'wire format error', kind='tie')
             continue
         run_direct(ctx, cfg, mo)
-    # V4-STREAMS
+    for _ in range(ctx.scale(30, 400)):
+        run_v4(ctx, gen_v4(random.Random(ctx.rng.getrandbits(48)), ctx.tier))
+    for _ in range(ctx.scale(10, 100)):
+        run_v4(ctx, gen_invert(random.Random(ctx.rng.getrandbits(48)), ctx.tier))
     # numpy's reciprocal of zero is NaN (the model's Cinv): probed on every run
     z = np.reciprocal(np.array([0, 2, 1j, 1 + 1j], np.complex64))
     mz = ctx.model([[13, [2, [0, 0, 0]]], [13, [2, [2, 0, 0]]], [13, [2, [0, 1, 0]]], [13, [2, [1, 1, 0]]]]) \
